@@ -110,6 +110,11 @@ impl<E> ArrayQueue<E> {
     pub fn force_push(&self, value: E) -> (r: Option<E>)
         ensures pushed(*self, ghost_id(value), r is Some),
     { unimplemented!() }
+    // push fails (handing the value back) when the queue is full
+    #[verifier::external_body]
+    pub fn push(&self, value: E) -> (r: Result<(), E>)
+        ensures r is Ok ==> pushed(*self, ghost_id(value), false), r is Err ==> ghost_id(r->Err_0) == ghost_id(value),
+    { unimplemented!() }
     #[verifier::external_body]
     pub fn pop(&self) -> (r: Option<E>) { unimplemented!() }
     #[verifier::external_body]
